@@ -2,6 +2,7 @@ package world
 
 import (
 	"bytes"
+	"context"
 	"errors"
 	"fmt"
 	"io"
@@ -207,6 +208,8 @@ type Op struct {
 	Also Fault `json:"also,omitempty"`
 	// Timeout of the operation (0 = none, the action default)
 	Timeout time.Duration `json:"timeout,omitempty"`
+	// CtxCancelled: install / upgrade run with a context that is already cancelled (Ctrl-C while the chart rendered)
+	CtxCancelled bool `json:"ctxCancelled,omitempty"`
 	// Interject makes another actor create an object while the operation runs: right before the operation's
 	// AtKube-th cluster request is processed (only if no object exists at that path then).
 	Interject *Interject `json:"interject,omitempty"`
@@ -242,6 +245,7 @@ func (o *Op) Describe() string {
 		}
 	}
 	add(o.Atomic, "atomic")
+	add(o.CtxCancelled, "context-cancelled")
 	add(o.Replace, "replace")
 	add(o.CleanupOnFail, "cleanup-on-fail")
 	add(o.DisableHooks, "no-hooks")
@@ -394,6 +398,12 @@ func (w *World) Run(op *Op) *Result {
 		if op.Values != nil {
 			vals = deepCopyJSON(op.Values)
 		}
+		runCtx := context.Background()
+		if op.CtxCancelled {
+			c, cancel := context.WithCancel(runCtx)
+			cancel()
+			runCtx = c
+		}
 		switch op.Kind {
 		case "install":
 			a := action.NewInstall(cfg)
@@ -411,7 +421,7 @@ func (w *World) Run(op *Op) *Result {
 			if op.Customize != nil {
 				op.Customize(a)
 			}
-			res.Rel, res.Err = a.Run(op.buildChart(), vals)
+			res.Rel, res.Err = a.RunWithContext(runCtx, op.buildChart(), vals)
 		case "upgrade":
 			a := action.NewUpgrade(cfg)
 			a.Namespace = "default"
@@ -429,7 +439,7 @@ func (w *World) Run(op *Op) *Result {
 			if op.Customize != nil {
 				op.Customize(a)
 			}
-			res.Rel, res.Err = a.Run(w.Name, op.buildChart(), vals)
+			res.Rel, res.Err = a.RunWithContext(runCtx, w.Name, op.buildChart(), vals)
 		case "rollback":
 			a := action.NewRollback(cfg)
 			a.Version, a.CleanupOnFail, a.DisableHooks, a.Force, a.MaxHistory, a.DryRun = op.Target, op.CleanupOnFail, op.DisableHooks, op.Force, op.MaxHistory, op.DryRun
